@@ -2,5 +2,5 @@ SPECIFICATION Spec
 CONSTANTS
   Aspect = "@@ASPECT@@"
   Emit = TRUE
-INVARIANTS Monotone NullableLaw UnionLaw SubclassAccepted
+INVARIANTS Monotone NullableLaw UnionLaw SubclassAccepted InterfaceLaw
 CHECK_DEADLOCK FALSE
